@@ -118,6 +118,74 @@ def s02_polylines(ctx):
     return res
 
 
+def worker_fix(configs):
+    """like `worker`, with allow_fix and the first trace handed over as a mergeable MultiLineString (cut at an interior point)"""
+    import_fractopo()
+    import geopandas as gpd
+    from shapely.geometry import LineString, MultiLineString, box
+
+    from fractopo.tval.trace_validation import Validation
+
+    area = gpd.GeoDataFrame(geometry=[box(-100, -100, 100, 100)])
+    out = []
+    for cfg, cut in configs:
+        first = cfg[0]
+        (x0, y0), (x1, y1) = first[0], first[1]
+        mid = (x0 + (x1 - x0) * cut, y0 + (y1 - y0) * cut)
+        geoms = [MultiLineString([[first[0], mid], [mid] + list(first[1:])])] + [LineString(s) for s in cfg[1:]]
+        try:
+            v = Validation(gpd.GeoDataFrame(geometry=geoms), area, "x", True, SNAP_THRESHOLD=0.001).run_validation()
+            out.append(([sorted(set(e) - IGNORED) for e in v["VALIDATION_ERRORS"]], [g.geom_type for g in v.geometry.values]))
+        except Exception as e:
+            out.append(f"{type(e).__name__}: {str(e)[:100]}")
+    return out
+
+
+def s02_multipart(ctx):
+    """a trace delivered in two mergeable parts (allow_fix) must be judged like the merged trace"""
+    rng = random.Random(f"{ctx.seed}:S02m")
+    res = StreamResult("S02-multipart", rule="lattice pairs / triples in which the FIRST trace is handed over as a mergeable MultiLineString (cut at 3/8 or 5/8 of its first "
+                       "segment) with allow_fix=True: the verdict of every trace must contain the documented defects of the configuration with the trace merged "
+                       "(V NODE, MULTI JUNCTION, ... are determined from the nodes of the FIXED traces); non-trivial = configuration with a defect")
+    pairs = rng.sample(list(itertools.combinations(SEGS, 2)), budget(ctx.tier, 500, 4000))
+    triples = rng.sample(list(itertools.combinations(SEGS, 3)), budget(ctx.tier, 500, 6000))
+    cfgs = []
+    for c in pairs + triples:
+        c = list(c)
+        rng.shuffle(c)
+        cfgs.append((tuple(c), rng.choice([0.375, 0.625])))
+    reqs = [f"defects traces={lines(c)}" for c, _ in cfgs]
+    resps = ctx.driver.parallel(reqs)
+    chunks = [cfgs[i::64] for i in range(64)]
+    with mp.get_context("fork").Pool(16) as pool:
+        parts = pool.map(worker_fix, chunks, chunksize=1)
+    got = [None] * len(cfgs)
+    for i, part in enumerate(parts):
+        got[i::64] = part
+    for (cfg, cut), resp, g in zip(cfgs, resps, got):
+        res.evaluations += 1
+        r = parse_resp(resp)
+        if r.get("crisp") != "1":
+            res.skipped["not_crisp"] = res.skipped.get("not_crisp", 0) + 1
+            continue
+        # the cut point must not be a contact of the configuration (it is an interior point of the first trace: 3/8 and 5/8 are not lattice contacts)
+        exp = [[dec(x) for x in t.split(";") if x] for t in r["defects"].split("|")]
+        if any(exp):
+            res.nontrivial += 1
+        case = {"stream": "S02-multipart", "traces": [list(map(list, c)) for c in cfg], "cut": cut}
+        if isinstance(g, str):
+            res.disagreements.append(Disagreement("S02-multipart", case, exp, g, True, "validation raised"))
+            continue
+        errs, types = g
+        bad = [(k, e, h) for k, (e, h) in enumerate(zip(exp, errs)) if not set(e) <= set(h)]
+        if types[0] != "LineString":
+            bad.append((0, "merged LineString", types[0]))
+        if bad:
+            res.disagreements.append(Disagreement("S02-multipart", case, exp, errs, True, f"a documented defect is missing when the first trace arrives in two mergeable parts: {bad[:3]}"))
+    res.samples = [{"traces": [list(s_) for s_ in cfgs[0][0]], "cut": cfgs[0][1]}]
+    return res
+
+
 def s02_generated(ctx):
     """translator validation: the REGENERATED Lean definitions (compiled into gen_c02) and the Python functions they were generated
     from, run on the same inputs"""
@@ -237,13 +305,22 @@ def s02_generated(ctx):
     return res
 
 
-STREAMS = [s02_lattice_pairs, s02_lattice_triples, s02_polylines, s02_generated]
+STREAMS = [s02_lattice_pairs, s02_lattice_triples, s02_polylines, s02_generated, s02_multipart]
 
 
 def replay(ctx, stream, case):
     if stream == "S02-generated":
         r = s02_generated(ctx)  # seeded: regenerates the same cases
         return r.disagreements[0] if r.disagreements else None
+    if stream == "S02-multipart":
+        cfg = tuple(tuple(map(tuple, t)) for t in case["traces"])
+        r = parse_resp(ctx.driver.batch([f"defects traces={lines(cfg)}"])[0])
+        exp = [[dec(x) for x in t.split(";") if x] for t in r["defects"].split("|")]
+        g = worker_fix([(cfg, case["cut"])])[0]
+        if isinstance(g, str):
+            return Disagreement(stream, case, exp, g, True, "validation raised")
+        bad = [(k, e, h) for k, (e, h) in enumerate(zip(exp, g[0])) if not set(e) <= set(h)]
+        return Disagreement(stream, case, exp, g[0], True, f"documented defect missing: {bad[:3]}") if bad else None
     res = StreamResult("replay")
     evaluate(ctx, [tuple(tuple(map(tuple, t)) for t in case["traces"])], res, stream)
     return res.disagreements[0] if res.disagreements else None
